@@ -19,7 +19,15 @@ def UT():
                      Node('x', 'R', 'x'), Node('x_b', 'x', 'b'), Node('x_b_c', 'x_b', 'c')], 'UT')
 
 
+def UTS():
+    """symbolic child names: the solver decides how the child's name relates to its directory's name"""
+    return Universe([Node('a', 'R', 'a'), Node('a_b', 'a', None, symlen=2, namekey='k1'), Node('a_b_c', 'a_b', None, symlen=1, namekey='k2'),
+                     Node('f', 'R', 'f', kinds=('f',)),
+                     Node('x', 'R', 'x'), Node('x_b', 'x', None, symlen=2, namekey='k1'), Node('x_b_c', 'x_b', None, symlen=1, namekey='k2')], 'UTS')
+
+
 UNIVERSES['UT'] = UT
+UNIVERSES['UTS'] = UTS
 IMAGE = {'a': 'x', 'a_b': 'x_b', 'a_b_c': 'x_b_c'}
 
 PAIRS = ['same_mem', 'two_mem', 'mem_to_alt', 'same_alt', 'alt_to_mem', 'same_ovl', 'ovl_to_mem', 'mem_to_ovl', 'same_altalt']
@@ -95,11 +103,11 @@ def transfer_contract(op, ts, td, src, dst, same):
     def img(v):
         rel = []
         while v != src:
-            rel.append(u.by_var[v].name)
+            rel.append(u.by_var[v].namekey if u.by_var[v].symlen is not None else u.by_var[v].name)
             v = u.parent(v)
         w = dst
         for nm in reversed(rel):
-            cands = [c for c in u.children(w) if u.by_var[c].name == nm]
+            cands = [c for c in u.children(w) if (u.by_var[c].namekey if u.by_var[c].symlen is not None else u.by_var[c].name) == nm]
             if not cands:
                 return None
             w = cands[0]
@@ -118,7 +126,7 @@ def transfer_contract(op, ts, td, src, dst, same):
 def run_transfer_case(prog, params):
     res = CaseResult()
     res.states = 1
-    u = UT()
+    u = UNIVERSES[params.get('universe', 'UT')]()
     pair, shape, dshape = params['pair'], params['shape'], params['dshape']
     props = set(params['props'])
     for (op, src, dst) in params['transfers']:
@@ -196,9 +204,9 @@ def run_transfer_case(prog, params):
     return res
 
 
-def transfer_cases(pairs, props_, tier, seed, copy_bufs=(2,)):
+def transfer_cases(pairs, props_, tier, seed, copy_bufs=(2,), universe='UT'):
     import random
-    u = UT()
+    u = UNIVERSES[universe]()
     src_nodes = ['a', 'a_b', 'a_b_c', 'f']
     shs = []
     for sh in shapes(u):
@@ -220,5 +228,5 @@ def transfer_cases(pairs, props_, tier, seed, copy_bufs=(2,)):
         for cb in copy_bufs:
             for sh in shs:
                 for ds in dshapes:
-                    cases.append({'pair': pair, 'shape': sh, 'dshape': ds, 'transfers': transfers, 'props': props_, 'copy_buf': cb})
+                    cases.append({'pair': pair, 'shape': sh, 'dshape': ds, 'transfers': transfers, 'props': props_, 'copy_buf': cb, 'universe': universe})
     return cases
